@@ -339,6 +339,10 @@ impl Args {
 					a.only = Some(args[i + 1].clone());
 					i += 1
 				},
+				"--only-file" => {
+					a.only = Some(fs::read_to_string(&args[i + 1]).unwrap().trim_end_matches('\n').to_string());
+					i += 1
+				},
 				"--shards" => {
 					a.shards = args[i + 1].parse().unwrap_or(16);
 					i += 1
